@@ -5,6 +5,7 @@ YAML Path processor based on ruamel.yaml.
 Copyright 2018, 2019, 2020, 2021, 2022 William W. Kimball, Jr. MBA MSIS
 """
 from collections import OrderedDict
+from copy import copy
 from typing import Any, Dict, Generator, List, Union
 
 from ruamel.yaml.compat import ordereddict as ryod
@@ -1682,8 +1683,18 @@ class Processor:
             if append_node:
                 updated_coords.append(deepest_lhs)
                 rem_idx += 1
+        # Remove the subtracted keys from copies of the matched Hashes; the
+        # result is virtual and the document itself must not be altered.
+        copied_idxs = []
         for idx, key in rem_dels:
-            del updated_coords[idx].deepest_node_coord.node[key]
+            if idx not in copied_idxs:
+                orig_nc = updated_coords[idx].deepest_node_coord
+                updated_coords[idx] = NodeCoords(
+                    copy(orig_nc.node), orig_nc.parent, orig_nc.parentref,
+                    orig_nc.path, orig_nc.ancestry, orig_nc.path_segment)
+                copied_idxs.append(idx)
+            if key in updated_coords[idx].node:
+                del updated_coords[idx].node[key]
 
         self.logger.debug((
             "Resulting data:"),
